@@ -47,7 +47,7 @@ def plan(tier):
   if tier == 'quick':
     return {'runs': 480, 'budget_s': 540, 'per_run_timeout_s': 500, 'selftest_runs': 12,
             'selftest_runs_full': 64, 'shrink_budget_s': 90, 'bias_rounds': 400}
-  return {'runs': 12000, 'budget_s': 1800, 'per_run_timeout_s': 900, 'selftest_runs': 24,
+  return {'runs': 14000, 'budget_s': 1800, 'per_run_timeout_s': 900, 'selftest_runs': 24,
           'selftest_runs_full': 128, 'shrink_budget_s': 180, 'bias_rounds': 2000}
 
 
